@@ -54,13 +54,15 @@ def _ops():
     stranger = st.builds(lambda n, l: ["rx", l.format(n)], st.one_of(st.sampled_from((1, 2, 250, 252, 253, 254, 255)), st.integers(0, 255)),
                          st.sampled_from(("{};1;0;0;6;child\n", "{};1;1;0;0;5\n", "{};255;3;0;0;50\n", "{};1;2;0;0;\n")))
     tick = st.sampled_from((1, 599, 601, 3600, 86400, 10**7)).map(lambda t: ["tick", t])
-    return st.lists(gen.weighted((6, request.map(lambda l: ["rx", l])), (2, present.map(lambda l: ["rx", l])), (1, install), (1, st.sampled_from((["save"], ["save"], ["reload"]))), (2, stranger), (1, tick)), min_size=3, max_size=20)
+    remove = st.one_of(st.integers(1, 254), st.sampled_from((1, 2, 3, 250, 253, 254))).map(lambda i: ["remove", i])  # the application decommissions a node
+    return st.lists(gen.weighted((6, request.map(lambda l: ["rx", l])), (2, present.map(lambda l: ["rx", l])), (1, install), (1, st.sampled_from((["save"], ["save"], ["reload"]))), (2, stranger), (1, tick), (1, remove)), min_size=3, max_size=20)
 
 
 def strategy(tier: str):
     return st.fixed_dictionaries(
         {"version": st.one_of(st.none(), gen.versions_any, gen.versions_any, gen.versions_any), "ids": _ids, "install": st.sampled_from(("direct", "presented")), "ops": _ops(), "listen_mode": st.sampled_from(("fresh", "persistent")), "debug_log": st.sampled_from((False, False, True)),
-         "fail_answers": st.one_of(st.just([]), st.just([]), st.lists(st.integers(0, 5), max_size=3, unique=True).map(sorted))}
+         "fail_answers": st.one_of(st.just([]), st.just([]), st.lists(st.integers(0, 5), max_size=3, unique=True).map(sorted)),
+         "hang_answers": st.one_of(st.just([]), st.just([]), st.just([]), st.lists(st.integers(0, 5), min_size=1, max_size=2, unique=True).map(sorted))}
     )
 
 
@@ -91,6 +93,16 @@ def enumerate_cases(tier: str):
             for strangers in ([top + 1], [top + 1, top + 2], [254], [255], [254, 255]):
                 ops = [["rx", f"{n};1;0;0;6;child\n"] for n in strangers if n <= 255] + [["rx", "255;255;3;0;3;\n"]] * 3
                 yield {"version": version, "ids": list(range(1, top + 1)), "install": "direct", "ops": ops, "listen_mode": "persistent"}
+    # the answer's write stalls after the bytes went out and the listener is cancelled by the application's timeout
+    for version in (None, "1.4", "2.2"):
+        for hangs in ([0], [1], [0, 1]):
+            for mode in ("fresh", "persistent"):
+                yield {"version": version, "ids": [1, 2], "install": "direct", "ops": [["rx", "255;255;3;0;3;\n"]] * 4, "listen_mode": mode, "hang_answers": hangs}
+    # the registry shrinks outside the handlers (nodes decommissioned by the application) after the top of the range was reached
+    for version in ("1.4", "2.2"):
+        for keep in (0, 1, 100, 249):
+            ops = [["rx", "255;255;3;0;3;\n"]] * 2 + [["remove", i] for i in range(keep + 1, 255)] + [["rx", "255;255;3;0;3;\n"]] * 2
+            yield {"version": version, "ids": list(range(0, 253)), "install": "direct", "ops": ops, "listen_mode": "fresh"}
     # time passes between requests (seconds to months): an id handed out stays handed out
     for version in (None, "1.4", "2.2"):
         for gap in (1, 601, 3601, 86401, 10**7):
@@ -103,11 +115,16 @@ def enumerate_cases(tier: str):
 
 
 def _wire_ids(transport) -> list[int]:
+    """Ids in the answers put on the wire, in order; an id the application removed from the registry since is free again."""
     out = []
-    for line in getattr(transport, "wire", []):
+    forgotten = getattr(transport, "forgotten", [])
+    for pos, line in enumerate(getattr(transport, "wire", [])):
         match = drive.IDRESP.match(line)
         if match:
-            out.append(int(match.group(3)))
+            new_id = int(match.group(3))
+            if any(at > pos and node_id == new_id for at, node_id in forgotten):
+                continue  # handed out, then decommissioned by the application: handing it out again is fine
+            out.append(new_id)
     return out
 
 
@@ -181,6 +198,18 @@ def run_case(case: dict) -> Outcome:
             return state["answers"] - 1 in fail_answers
 
         transport.fail_pred = fail_pred
+        hang_answers = set(case.get("hang_answers", []))
+        if hang_answers:
+            def hang_pred(line: str) -> bool:
+                # the answer is put on the wire, then the write stalls (drain on a stuck link) until the application's
+                # receive timeout cancels the listener: the node has its id all the same
+                if not drive.IDRESP.match(line) or state["answers"] not in hang_answers:
+                    return False
+                state["answers"] += 1
+                transport.wire = getattr(transport, "wire", []) + [line]
+                return True
+
+            transport.hang_pred = hang_pred
 
     def fault_step(rec, model):
         # the id went out on the wire although the write raised: from the node's point of view it was handed out
@@ -205,7 +234,13 @@ def run_case(case: dict) -> Outcome:
             return ("id-handed-out-twice", f"ids {sorted(dup)} appear twice among the answers put on the wire: {wire}")
         return None
 
-    bad, info = env.run(drive.run_history(hist, ASPECTS, hooks={"setup": setup, "fault_step": fault_step, "after_step": after_step}))
+    if case.get("hang_answers"):
+        from vf.vloop import run_virtual
+
+        hist["rx_timeout"] = 30
+        (bad, info), _loop = run_virtual(lambda: drive.run_history(hist, ASPECTS, hooks={"setup": setup, "fault_step": fault_step, "after_step": after_step}))
+    else:
+        bad, info = env.run(drive.run_history(hist, ASPECTS, hooks={"setup": setup, "fault_step": fault_step, "after_step": after_step}))
     if bad is None:
         wire = _wire_ids(info["gateway"].transport)
         dup = {i for i in wire if wire.count(i) > 1}
